@@ -1,14 +1,31 @@
 import RV.Proofs.Boundary
+import RV.Proofs.Tree
+import RV.Proofs.TreeUpdate
+import RV.Proofs.TreeTerm
+import Mathlib.Algebra.Order.Field.Rat
+import Mathlib.Tactic.NormNum
+import Mathlib.Tactic.IntervalCases
 /-
   C15 — boundary conditions and the spatial tree keep every particle accounted for.
-  Theorems about the models RV/Model/Boundary.lean and RV/Model/Tree.lean (the same
-  definitions that drv_c15 runs on IEEE doubles against boundary.c / tree.c), instantiated at
-  an arbitrary linearly ordered field.
+
+  Theorems about the models RV/Model/Boundary.lean and RV/Model/Tree.lean — the same definitions that
+  drv_c15 runs on IEEE doubles against boundary.c / tree.c — instantiated at an arbitrary linearly
+  ordered field `K` (comparisons = the field's order, `RV.C15.ordScalarO`).
+
+  Vocabulary (RV/Proofs/Tree.lean):
+  * `In p c`        : `|p.x-c.x| ≤ c.w/2 ∧ …` — the closed cell, as in `reb_tree_particle_is_inside_cell`;
+  * `WF ps tie c t` : hereditary invariant of a subtree occupying cell `c`: a leaf's cell is `c` and contains its
+                      particle; an inner node's cell is `c`, child `o` occupies `childCell c o`,
+                      `pt = -(number of particles below)`, at least 2 particles below, and (if `tie`) all particles
+                      below child `o` have octant `o` under the code's `<` rule;
+  * `GravOK ps t`   : every cell's `m` is the sum of the masses below it and `m*mx, m*my, m*mz` are the
+                      mass-weighted coordinate sums, hereditarily.
 -/
 set_option linter.unusedSectionVars false
 set_option linter.unusedVariables false
+set_option linter.unusedSimpArgs false
 namespace RV.C15
-open RV RV.Boundary
+open RV RV.Boundary RV.Tree
 
 variable {K : Type} [Field K] [LinearOrder K] [IsStrictOrderedRing K]
 
@@ -69,6 +86,62 @@ theorem c15_periodic_terminates (bx bY bz : K) (hx : 0 < bx) (hy : 0 < bY) (hz :
   obtain ⟨z, ez⟩ := wrap1_terminates bz hz k p.z h3
   exact ⟨{ p with x := x, y := y, z := z }, by simp [periodic1, ex, ey, ez]⟩
 
+/-! ## shear-periodic wrap -/
+
+/-- The offsets computed at the top of the shear branch, for any `fmod` with the defining property
+    `fmod a b = a - q*b` (`q` an integer): `offsetp1 ≡ +(3/2)Ω Lx t`, `offsetm1 ≡ -(3/2)Ω Lx t` modulo `Ly`,
+    and the velocity jump is `(3/2)Ω Lx`. -/
+theorem c15_shear_offsets (fmod : K → K → K) (hf : ∀ a b, ∃ q : Int, fmod a b = a - q * b)
+    (omega t bx bY : K) :
+    let r := shearOffsets fmod omega t bx bY
+    (∃ a : Int, r.1 = 3 / 2 * omega * bx * t + a * bY) ∧
+    (∃ b : Int, r.2.1 = -(3 / 2 * omega * bx * t) + b * bY) ∧
+    r.2.2 = 3 / 2 * omega * bx := by
+  simp only [shearOffsets, sc_hadd, sc_hsub, sc_hmul, sc_hdiv, sc_neg, sc_ofNat, half_eq, Nat.cast_ofNat]
+  obtain ⟨q1, h1⟩ := hf (-(3 / 2) * omega * bx * t + bY / 2) bY
+  obtain ⟨q2, h2⟩ := hf (3 / 2 * omega * bx * t - bY / 2) bY
+  refine ⟨⟨q1 - 1, ?_⟩, ⟨q2 + 1, ?_⟩, trivial⟩
+  · rw [h1]; push_cast; ring
+  · rw [h2]; push_cast; ring
+
+/-- REB_BOUNDARY_SHEAR, one particle: with offsets congruent to `±S` modulo `Ly`, the particle ends inside the
+    box; `x` moved by `n` box lengths, `vy` by `n` velocity jumps with the same `n`, `y` by `n·S` plus a whole
+    number of `Ly`, `z` by a whole number of `Lz`. -/
+theorem c15_shear_particle (bx bY bz op1 om1 dv S : K) (fuel : Nat) (p q : P K)
+    (h : shear1 bx bY bz op1 om1 dv fuel p = some q)
+    (h1 : ∃ a : Int, op1 = S + a * bY) (h2 : ∃ b : Int, om1 = -S + b * bY) :
+    (-bx / 2 ≤ q.x ∧ q.x ≤ bx / 2) ∧ (-bY / 2 ≤ q.y ∧ q.y ≤ bY / 2) ∧ (-bz / 2 ≤ q.z ∧ q.z ≤ bz / 2) ∧
+    ∃ n k m : Int, q.x = p.x - n * bx ∧ q.vy = p.vy + n * dv ∧ q.y = p.y + n * S + k * bY ∧ q.z = p.z - m * bz := by
+  unfold shear1 at h
+  cases e1 : shearHi bx op1 dv fuel p with
+  | none => simp [e1] at h
+  | some p1 =>
+    cases e2 : shearLo bx om1 dv fuel p1 with
+    | none => simp [e1, e2] at h
+    | some p2 =>
+      cases e3 : wrap1 bY fuel p2.y with
+      | none => simp [e1, e2, e3] at h
+      | some y =>
+        cases e4 : wrap1 bz fuel p2.z with
+        | none => simp [e1, e2, e3, e4] at h
+        | some z =>
+          simp [e1, e2, e3, e4] at h
+          subst h
+          obtain ⟨n1, a1, a2, a3, a4, a5, a6⟩ := shearHi_spec _ _ _ _ _ _ e1
+          obtain ⟨n2, b1, b2, b3, b4, b5, b6⟩ := shearLo_spec _ _ _ _ _ _ e2
+          obtain ⟨y1, y2, my, hy⟩ := wrap1_spec _ _ _ _ e3
+          obtain ⟨z1, z2, mz, hz⟩ := wrap1_spec _ _ _ _ e4
+          obtain ⟨a, ha⟩ := h1
+          obtain ⟨b, hb⟩ := h2
+          refine ⟨⟨b5, ?_⟩, ⟨y1, y2⟩, ⟨z1, z2⟩, (n1 : Int) - n2, (n1 : Int) * a + n2 * b - my, mz, ?_, ?_, ?_, ?_⟩
+          · rcases b6 with h0 | h0
+            · subst h0; simp at b1; rw [b1]; exact a5
+            · exact le_of_lt h0
+          · simp only []; rw [b1, a1]; push_cast; ring
+          · simp only []; rw [b3, a3]; push_cast; ring
+          · simp only []; rw [hy, b2, a2, ha, hb]; push_cast; ring
+          · simp only []; rw [hz, b4, a4]
+
 /-! ## open boundary -/
 
 /-- Without a tree: the removal loop (with the `i--` re-check of the element swapped into the hole)
@@ -78,4 +151,206 @@ theorem c15_open_survivors {α : Type} (out : α → Bool) (l : List α) :
     List.Perm (openLoop out 0 l) (l.filter (fun a => !out a)) :=
   openLoop_zero out l
 
+/-- With a tree the loop only marks (`y = NaN`); the unmarked particles are exactly those not outside, in
+    their original order (`N == 1` is removed on the spot by `reb_simulation_remove_particle`). -/
+theorem c15_open_tree_mark {α : Type} (out flagged : α → Bool) (mark : α → α)
+    (hm : ∀ a, flagged (mark a) = true) (l : List α) (hl : ∀ a ∈ l, flagged a = false) :
+    (openMark out mark l).filter (fun a => !flagged a) = l.filter (fun a => !out a) := by
+  have gen : ∀ l : List α, (∀ a ∈ l, flagged a = false) →
+      (l.map fun a => if out a then mark a else a).filter (fun a => !flagged a) = l.filter (fun a => !out a) := by
+    intro l
+    induction l with
+    | nil => intro _; rfl
+    | cons a l ih =>
+      intro h
+      have ha := h a (by simp)
+      have := ih (fun b hb => h b (by simp [hb]))
+      by_cases ho : out a = true
+      · simp [List.filter_cons, ho, hm, this]
+      · simp [List.filter_cons, ho, ha, this]
+  match l, hl with
+  | [], _ => rfl
+  | [a], hl =>
+    have ha := hl a (by simp)
+    by_cases ho : out a = true
+    · simp [openMark, ho]
+    · simp [openMark, ho, ha]
+  | a :: b :: l, hl => exact gen _ hl
+
+/-! ## the oct-tree: insertion -/
+
+/-- One insertion (`reb_tree_add_particle_to_cell`) into a well-formed tree, when it returns: the invariant is
+    kept (geometry, containment of every particle in its leaf cell, `pt` counters, tie rule) and the leaves are
+    the old ones plus the new index exactly once. -/
+theorem c15_insert_one (ps : Nat → Pt K) (fuel : Nat) (t t' : T K) (c : Cell K) (pt : Nat)
+    (hwf : WF ps true c t) (hin : In (ps pt) c) (h : add ps fuel t c pt = .ok t') :
+    WF ps true c t' ∧ List.Perm (leaves t') (pt :: leaves t) :=
+  add_spec ps true fuel t c pt t' hwf hin h
+
+/-- Fresh construction from particles `0..n-1` lying in the root cell: the result is well formed and
+    (i) leaves ↔ particles is a bijection: every index `< n` is in exactly one leaf and nothing else is. -/
+theorem c15_build_bijection (ps : Nat → Pt K) (fuel : Nat) (c : Cell K) (n : Nat) (t : T K)
+    (hin : ∀ i, i < n → In (ps i) c) (h : build ps fuel c n = .ok t) :
+    WF ps true c t ∧ (leaves t).Nodup ∧ ∀ i, i ∈ leaves t ↔ i < n := by
+  obtain ⟨hwf, hp⟩ := build_spec ps true fuel c n t hin h
+  refine ⟨hwf, hp.nodup_iff.mpr List.nodup_range, fun i => ?_⟩
+  rw [hp.mem_iff, List.mem_range]
+
+/-- (ii) in a well-formed tree every particle lies in its leaf's cell and in the cell of every ancestor
+    (stated for the root of any subtree; `WF` is hereditary). -/
+theorem c15_cells_contain_particles (ps : Nat → Pt K) (tie : Bool) (t : T K) (c : Cell K) (hwf : WF ps tie c t) :
+    ∀ q ∈ leaves t, In (ps q) c :=
+  In_of_mem_leaves ps tie t c hwf
+
+/-- (iii) in a well-formed tree an inner node's `pt` is minus the number of particles below it, which is at
+    least 2, and its children are well-formed trees of its eight octant cells. -/
+theorem c15_inner_node_count (ps : Nat → Pt K) (tie : Bool) (c c' : Cell K) (g : Grav K) (n : Int)
+    (ch : Fin 8 → T K) (hwf : WF ps tie c (.node c' g n ch)) :
+    c' = c ∧ n = -((leaves (T.node c' g n ch)).length : Int) ∧ 2 ≤ (leaves (T.node c' g n ch)).length ∧
+    ∀ o, WF ps tie (childCell c o) (ch o) :=
+  ⟨hwf.1, hwf.2.2.1, hwf.2.2.2.1, hwf.2.1⟩
+
+/-- the refusal branch: insertion reports `coincident` only if the new particle has exactly the coordinates of
+    a particle already in the tree -/
+theorem c15_insert_error_only_if_coincident (ps : Nat → Pt K) : ∀ (fuel : Nat) (t : T K) (c : Cell K) (pt : Nat),
+    add ps fuel t c pt = .error .coincident →
+    ∃ q ∈ leaves t, (ps q).x = (ps pt).x ∧ (ps q).y = (ps pt).y ∧ (ps q).z = (ps pt).z := by
+  intro fuel
+  induction fuel with
+  | zero =>
+    intro t c pt h
+    cases t <;> simp [add] at h
+  | succ f ih =>
+    intro t c pt h
+    cases t with
+    | nil => simp [add] at h
+    | leaf c0 g q =>
+      simp only [add] at h
+      split at h
+      · rename_i hco
+        have hs := hco.2
+        simp only [samePos, Bool.and_eq_true, so_le] at hs
+        obtain ⟨⟨⟨h1, h2⟩, ⟨h3, h4⟩⟩, ⟨h5, h6⟩⟩ := hs
+        exact ⟨q, by simp [leaves], le_antisymm h2 h1, le_antisymm h4 h3, le_antisymm h6 h5⟩
+      · simp only [add_nil, bind, Except.bind] at h
+        by_cases e : octant (ps pt) c0 = octant (ps q) c0
+        · rw [e, setCh_same] at h
+          cases h2 : add ps f (T.leaf (childCell c0 (octant (ps q) c0)) zeroGrav q) (childCell c0 (octant (ps q) c0)) pt with
+          | ok t2 => simp [h2] at h
+          | error er =>
+            simp [h2] at h
+            subst h
+            obtain ⟨r, hr, hh⟩ := ih _ _ _ h2
+            simp [leaves] at hr
+            subst hr
+            exact ⟨r, by simp [leaves], hh⟩
+        · rw [setCh_other _ _ _ _ e, add_nil] at h
+          simp at h
+    | node c0 g n ch =>
+      simp only [add, bind, Except.bind] at h
+      cases h1 : add ps f (ch (octant (ps pt) c0)) (childCell c0 (octant (ps pt) c0)) pt with
+      | ok t1 => simp [h1] at h
+      | error er =>
+        simp [h1] at h
+        subst h
+        obtain ⟨r, hr, hh⟩ := ih _ _ _ h1
+        refine ⟨r, ?_, hh⟩
+        simp only [leaves, List.mem_flatMap]
+        exact ⟨_, List.mem_finRange _, hr⟩
+
+/-- Insertion terminates for distinct positions: if the new particle lies in the root cell and differs from
+    every particle of the tree by more than `w/2^k` on some axis (`Sep`), fuel `depth t + k + 1` suffices.
+    (With coincident positions the refinement would never stop — the code refuses them instead.) -/
+theorem c15_insert_terminates (ps : Nat → Pt K) (pt k : Nat) (t : T K) (c : Cell K)
+    (hwf : WF ps true c t) (hin : In (ps pt) c) (hsep : ∀ q ∈ leaves t, Sep (ps pt) (ps q) c.w k) :
+    ∃ t', add ps (depth t + k + 1) t c pt = .ok t' :=
+  add_terminates ps true pt k t c hwf hin hsep
+
+/-! ## aggregation -/
+
+/-- `reb_simulation_update_tree_gravity_data`: with non-negative masses, afterwards every cell has
+    `m = Σ mᵢ` and `m·(mx,my,mz) = Σ mᵢ·(xᵢ,yᵢ,zᵢ)` over the particles below it (hereditarily: `GravOK`);
+    geometry, counters and leaves are untouched. -/
+theorem c15_cell_mass_and_com (ps : Nat → Pt K) (t : T K) (c : Cell K) (hwf : WF ps true c t)
+    (hm : ∀ q ∈ leaves t, 0 ≤ (ps q).m) :
+    GravOK ps (updGrav ps t) ∧ WF ps true c (updGrav ps t) ∧ leaves (updGrav ps t) = leaves t :=
+  ⟨updGrav_ok ps t hm, WF_updGrav ps true t c hwf, leaves_updGrav ps t⟩
+
+/-- what `GravOK` says at the root of a subtree, spelled out -/
+theorem c15_cell_mass_and_com_root (ps : Nat → Pt K) (t : T K) (h : GravOK ps t) :
+    (grav t).m = massOf ps (leaves t) ∧ (grav t).mx * (grav t).m = momOf ps Pt.x (leaves t) ∧
+    (grav t).my * (grav t).m = momOf ps Pt.y (leaves t) ∧ (grav t).mz * (grav t).m = momOf ps Pt.z (leaves t) :=
+  GravSum_of_GravOK ps t h
+
+/-! ## tree walk -/
+
+/-- With `opening_angle2 = 0` the gravity walk for particle `pt` opens every cell and interacts with every
+    leaf other than its own exactly once, in tree order (no monopole approximations). -/
+theorem c15_walk_theta0_visits_every_leaf_once (ps : Nat → Pt K) (t : T K) (c : Cell K) (hw : c.w ≠ 0)
+    (hwf : WF ps true c t) (gx gy gz : K) (pt : Nat) :
+    (walk (0 : K) gx gy gz pt t).map visitPt = ((leaves t).filter (fun q => q ≠ pt)).map some :=
+  walk_zero gx gy gz pt t (WidthNZ_of_WF ps true t c hw hwf)
+
+/-! ## tree update (functional form) -/
+
+/-- The sweep of `reb_simulation_update_tree_cell` (drop leaves whose particle left its cell, recount, derefine)
+    on any geometrically sound tree and any new positions: no particle is lost or duplicated
+    (kept ∪ evicted = before, as multisets) and the kept tree satisfies containment and the counter invariant. -/
+theorem c15_update_sweep (ps : Nat → Pt K) (t : T K) (c : Cell K) (hgeo : Geo c t) :
+    WF ps false c (sweep ps t).1 ∧ List.Perm (leaves (sweep ps t).1 ++ (sweep ps t).2) (leaves t) :=
+  sweep_spec ps t c hgeo
+
+/-- Partial (functional form of the update of one root cell whose particles stay inside it: sweep, then
+    re-insert; the C code re-inserts *during* the walk, renumbers by swap-with-last and moves particles between
+    root boxes — covered by correspondence and search only): the multiset of particles is preserved and
+    containment/counters are re-established.  The tie rule is not (a particle may have moved onto a face
+    of its cell). -/
+theorem c15_update_partial (ps : Nat → Pt K) (fuel : Nat) (c : Cell K) (t t' : T K)
+    (hgeo : Geo c t) (hin : ∀ q ∈ leaves t, In (ps q) c) (h : update ps fuel c t = .ok t') :
+    WF ps false c t' ∧ List.Perm (leaves t') (leaves t) :=
+  update_spec ps fuel c t t' hgeo hin h
+
+/-! ## the hypotheses are satisfiable: concrete instances over ℚ -/
+
+/-- three particles in the root cell `[-1,1]³`; 0 and 2 share octants down to depth 2 -/
+def exPs : Nat → Pt ℚ
+  | 0 => ⟨1/2, 1/2, 1/2, 1⟩
+  | 1 => ⟨-1/2, 1/2, 1/4, 2⟩
+  | 2 => ⟨3/8, 5/8, 1/2, 3⟩
+  | _ => ⟨0, 0, 0, 0⟩
+def exCell : Cell ℚ := ⟨0, 0, 0, 2⟩
+/-- the same particles after a step: particle 2 has left its leaf cell (still in the root cell) -/
+def exPs' : Nat → Pt ℚ
+  | 2 => ⟨-3/8, -5/8, 1/2, 3⟩
+  | i => exPs i
+
+example : wrap1 (2 : ℚ) 5 (7/2) = some (-1/2) := by decide +kernel
+example : wrap1 (2 : ℚ) 5 (-1) = some (-1) ∧ wrap1 (2 : ℚ) 5 1 = some 1 := by decide +kernel   -- faces stay
+example : wrap1 (2 : ℚ) 1 (7/2) = none := by decide +kernel                                     -- fuel exhausted
+example : (match periodic (2 : ℚ) 2 4 5 [⟨7/2, -3, 9, 1⟩, ⟨0, 1, -2, 0⟩] with
+    | some l => l.map fun p => (p.x, p.y, p.z)
+    | none => []) = [(-1/2, -1, 1), (0, 1, -2)] := by decide +kernel
+example : (match shear1 (2 : ℚ) 2 4 (1/3 - 2) (-1/3 + 2) 5 5 ⟨7/2, 0, 1, 1⟩ with
+    | some p => (p.x, p.y, p.z, p.vy)
+    | none => (0, 0, 0, 0)) = (-1/2, 2/3, 1, 11) := by decide +kernel
+example : openLoop (fun n : Nat => n % 2 == 0) 0 [0, 1, 2, 3, 4, 6, 7] = [7, 1, 3] := by decide +kernel
+example : (match build exPs 10 exCell 3 with | .ok t => leaves t | .error _ => []) = [0, 2, 1] := by
+  decide +kernel
+example : ∀ i, i < 3 → In (exPs i) exCell := by
+  intro i hi
+  interval_cases i <;> simp [In, exPs, exCell, abs_le] <;> norm_num
+/-- fresh construction returns, cells get mass 6 and `m·mx = Σ m x = 5/8` -/
+example : (match build exPs 10 exCell 3 with
+    | .ok t => ((grav (updGrav exPs t)).m, (grav (updGrav exPs t)).m * (grav (updGrav exPs t)).mx)
+    | .error _ => (0, 0)) = (6, 5/8) := by decide +kernel
+/-- a coincident particle is refused -/
+example : (match build (fun i => if i = 2 then exPs 0 else exPs i) 10 exCell 3 with
+    | .error e => some e | .ok _ => none) = some .coincident := by decide +kernel
+/-- functional update after particle 2 moved to another octant: nothing lost, shape re-established -/
+example : (match build exPs 10 exCell 3 with
+    | .ok t => (match update exPs' 10 exCell t with | .ok t' => leaves t' | .error _ => [])
+    | .error _ => []) = [0, 1, 2] := by decide +kernel
+/-- separation hypothesis of `c15_insert_terminates`: particles 0 and 2 differ by 1/8 > 2/2^5 in x -/
+example : Sep (exPs 2) (exPs 0) exCell.w 5 := by
+  left; simp [exPs, exCell]; norm_num [abs_of_neg]
 end RV.C15
